@@ -36,6 +36,59 @@ add("C20", "other",
     "and are reported as KNOWN-FINDING, not discharged. proj_polyligne's skip test (L1 length < 1e-16) is taken as the definition "
     "of a degenerate segment; at least one segment must be non-degenerate. mapOnTrack wrappers are bounded only.")
 
+
+DED = {
+ "C01": ("Track feature-table ADT under the representation invariant twf (observations pairwise distinct, every feature list as long "
+         "as the name table, names mapped injectively into [0, m), no reserved name): getObsAnalyticalFeature, getAnalyticalFeature, "
+         "getListAnalyticalFeatures, setObsAnalyticalFeature, createAnalyticalFeature (scalar and list initialiser), "
+         "updateAnalyticalFeature (scalar and list), removeAnalyticalFeature (column deleted everywhere, higher indices shifted, every "
+         "other name reads as before - dict iteration modelled with tombstones), utils.addListToAF: each preserves twf, writes exactly "
+         "the designated column / cell, leaves every other column, every other observation, every other track, coordinates and "
+         "timestamps unchanged (frames proved, not assumed); the history clause follows by induction over these contracts.",
+         "Track.operate / __applyOperation / the expression evaluator, __setitem__/__getitem__ and operator objects are bounded only "
+         "(Integrator and addAnalyticalFeature are proved under C17)."),
+ "C04": ("Track.extract, __gt__ / __lt__ with an integer (head / tail trimming), __mod__ with a step, __add__ (concatenation; feature "
+         "table carried iff both name lists are equal), __removeObsListById (strictly increasing index list: exactly the other "
+         "observations in order, block-shift invariant + gap lemma by induction): the result holds exactly the designated observation "
+         "objects in the original order, the feature table is carried over, the source track is unchanged (frame obligations).",
+         "sort (numpy.argsort), __getInsertionIndex / insertObs, extractSpanTime (deepcopy), % with a pattern, removeObsList's sort and "
+         "duplicate scan are bounded only; `track < n` requires n <= size (a larger n wraps around in Python: recorded behaviour)."),
+ "C09": ("HMM.estimate's Viterbi core as two REGION contracts cut from the real function on every run: forward step - for every epoch "
+         "k >= 1 and candidate l, TAB_VAL[k][l] = c_obs + TAB_VAL[k-1][m*] + c_tr with m* = TAB_MRK[k][l] a valid candidate of epoch "
+         "k-1 (TIGHT) and <= the same expression for every m (LOWER); backward step - one candidate index per epoch, chained through "
+         "the back-pointers, starting from a minimum of the last row (numpy.argmin trusted); Qlog / Plog verified with the user "
+         "functions Q / P abstract; lemma sequence-lower-bound (induction over an arbitrary state sequence): LOWER implies every "
+         "sequence costs at least TAB_VAL at its last state, so the decoded sequence (cost = TAB_VAL by TIGHT) is optimal.",
+         "compilation of STATES / OBS, table initialisation, storing hmm_inference / hmm_cost, the equivalence minimum -log cost <=> "
+         "maximum likelihood, and 'log inputs give the same optimum' are bounded only. ASSUMED: accumulated costs stay below the 1e300 "
+         "sentinel."),
+ "C11": ("segmentation.split (feature-name form, limit = 0): with a ghost list E of piece ends, piece j is exactly the slice "
+         "(E[j-1], E[j]] of the track's observation list, pieces other than the last end at a marked observation and contain no other "
+         "marked observation, the last piece ends at the last observation, no marker => empty collection, feature table carried; "
+         "segmentation (list and scalar forms): marker = 1 exactly where not comp, comp = AND / OR fold of value <= threshold over the "
+         "non-NaN tested features; other columns, coordinates, observations unchanged. Uses the contracts of extract (C04) and of the "
+         "feature-table ADT (C01).",
+         "split on an index list / with limit > 0: bounded only."),
+ "C12": ("optimalPartition: interval-DP invariants (GOOD: D[a,b] at least as good as the direct cost; TRI: as good as every split "
+         "D[a,k] + D[k,b]; TIGHT: attained via M) for both directions (case split on mode), backtracking (recursive contract with ghost "
+         "D, C and a variant) and backward: the result is a strictly increasing list from the first to the last candidate whose summed "
+         "cost is D[0, N-1]; lemmas by induction: path-cost prefix / concatenation, and optimal-over-all-lists (GOOD and TRI imply no "
+         "strictly increasing list is better); hence post:no-other-list-is-better, discharged for minimise and maximise.",
+         "optimalSegmentation / optimalSimplification / findStops* wiring (cost matrix construction, mode passed through) is bounded only."),
+ "C17": ("ENUCoords.distance2DTo / Obs.distance2DTo (= sqrt(dx^2 + dy^2), non-negative), analytics.ds, analytics.speed (one-sided at "
+         "the ends, centred inside, NaN iff the elapsed time is 0, = distance / time otherwise), Integrator.execute (running sum "
+         "skipping index 0, stored under the output name, NaN-free in => NaN-free out), Track.addAnalyticalFeature for ds and for speed, "
+         "cinematics.estimate_speed, cinematics.computeAbsCurv: abs_curv starts at 0, grows by exactly the planimetric leg length, never "
+         "decreases, the temporary ds is removed, other columns / observations unchanged; positions and timestamps are in no frame.",
+         "IEEE rounding; a pre-existing feature named ds / abs_curv / speed (the functions then reuse it: outside the contract)."),
+ "C18": ("_dtw's dynamic-programming core as a REGION contract (from `T = np.zeros((N2, N1))` to the end of the backward while loop, cut "
+         "from the real function on every run) with the weight function abstract and monotone: certificate TIGHT (M[a,b] is an in-grid "
+         "diagonal / up / left predecessor with T[a,b] = W(T[pred], D[a,b])) and LOWER (T[a,b] <= W(T[q], D[a,b]) for every in-grid "
+         "predecessor q); the backward walk S goes from the last pair to the first pair by coupling steps inside the grid and "
+         "accumulates exactly T (with termination); lemma coupling-lower-bound (induction over an arbitrary coupling); every lambda of "
+         "_p2weight is proved monotone in its first argument.",
+         "forming D, _fillAF_dtw (links, nb_links, score), symmetry under swapping the tracks and _fdtw (best-first search) are bounded only."),
+}
 for i, b, n in [
     ("C01", "all histories of feature operations to a depth bound over a colliding name alphabet, random longer ones; run-time contract = abstract name->column map", ""),
     ("C02", "all expression trees to depth 3 over a small alphabet, random to depth 6, vectors with 0, negatives, ties, NaN; oracle = ordinary arithmetic under the documented operator table", ""),
@@ -55,6 +108,11 @@ for i, b, n in [
     ("C17", "all small position/gap sequences incl. repeated positions and timestamps, random tracks, repeated computation", ""),
     ("C18", "all pairs of sizes 1..4 on small lattices, random beyond; p in {1,2,inf}, dim 1-3; oracle = enumeration of all couplings", ""),
 ]:
+    if i in DED:
+        add(i, "other", DED[i][0], b + ". ALSO BOUNDED ONLY: " + DED[i][1],
+            ENC + "Every clause not listed under PROVED is carried by the bounded stand-in only. Trusted / assumed items are listed in the "
+            "evidence file (assumptions, trusted_base).")
+        continue
     add(i, "exploration", "", b,
         "Bounded stand-in only so far (the deductive contracts for this property are not in place yet): run-time contract on the real "
         "code within the stated bound; nothing is claimed beyond the explored inputs. " + n,
